@@ -139,6 +139,8 @@ PLAIN = {
     'open2x2': ('plain', False, F(0, 1, 2), F(0, 1, 2)),
     'glued2x2': ('plain', True, F(0, 1, 2), F(0, 1, 2)),
     'open_irreg3x3': ('plain', False, F(0, .3, .8, 1), F(0, .4, .5, 2)),
+    # the closed-curve flag as a NumPy boolean (what `np.all(verts[0] == verts[-1])` gives a caller), not the Python singleton
+    'glued2x1np': ('plain', __import__('numpy').bool_(True), F(0, 1, 2), F(0, 1)),
     'glued_irreg3x3': ('plain', True, F(0, .3, .8, 1), F(0, .4, .5, 2)),
 }
 PARAM = {
